@@ -151,7 +151,7 @@ def update_ledger(props):
     for r in reps:
         ok = sorted({o['oid'] for o in r['obligations'] if o['status'] == 'discharged'})
         notok = sorted({o['oid'] for o in r['obligations'] if o['status'] != 'discharged'})
-        ledger[r['fid']] = dict(fn_hash=r['fn_hash'], discharged=[o for o in ok if o not in notok],
+        ledger[r['fid']] = dict(fn_hash=r['fn_hash'], file_hash=r.get('file_hash'), discharged=[o for o in ok if o not in notok],
                                 count=len(r['obligations']))
         if r['status'] != 'ok' or notok:
             bad += 1
@@ -225,8 +225,10 @@ def check(props, pid, tier, seed, no_bounded=False):
                 undecided.append(dict(fid=r['fid'], reason='ghost-site-vanished', detail=str(missing)))
             if len(obs) == 0 and r['status'] == 'ok':
                 crashes.append(f"{r['fid']}: zero obligations generated")
-            if led and led['fn_hash'] == r['fn_hash'] and len(obs) < led['count']:
-                crashes.append(f"{r['fid']}: fewer obligations ({len(obs)}) than the ledger ({led['count']}) for an unchanged function")
+            # (the whole source FILE must be unchanged: a private method inlined into this function may have changed, which legitimately changes the count)
+            if led and r['status'] == 'ok' and led.get('file_hash') and led.get('file_hash') == r.get('file_hash') and led['fn_hash'] == r['fn_hash'] \
+                    and len(obs) < led['count']:
+                crashes.append(f"{r['fid']}: fewer obligations ({len(obs)}) than the ledger ({led['count']}) for an unchanged source file")
         for o in notdis:
             in_ledger = bool(led) and o['oid'] in led['discharged']
             failed_ob.append(dict(o, fid=r['fid'], in_ledger=in_ledger))
